@@ -243,7 +243,15 @@ def setup():
     bad = 0
     for fn in sorted(os.listdir(C.SPEC)):
         if fn.endswith(".tla"):
-            p = subprocess.run(["java", "-cp", C.TLA_CP, "tla2sany.SANY", fn], cwd=C.SPEC,
+            jvm = []
+            if "TLAPS" in open(os.path.join(C.SPEC, fn)).read().split("=====")[0].split("EXTENDS", 1)[-1].split("\n", 1)[0]:
+                # a proof module: the TLAPS standard module comes with tlapm, not with tla2tools
+                lib = "/opt/veriftools/tlapm/lib/tlapm/stdlib"
+                if not os.path.isdir(lib):
+                    print(f"setup: {fn} skipped (tlapm's standard library not found)")
+                    continue
+                jvm = [f"-DTLA-Library={lib}"]
+            p = subprocess.run(["java", *jvm, "-cp", C.TLA_CP, "tla2sany.SANY", fn], cwd=C.SPEC,
                                stdout=subprocess.PIPE, stderr=subprocess.STDOUT, text=True)
             if p.returncode != 0 or "error" in p.stdout.lower().replace("semantic errors:\n\n", ""):
                 if "*** Errors" in p.stdout or "Abort" in p.stdout or p.returncode != 0:
